@@ -37,6 +37,9 @@ CLAIMED = {
     "C19": (SIM + "seeded histories on three ledgers sharing a bucket (one of them created mid-history) and one alone in another bucket, with the same account names, references, idempotency keys and transaction ids everywhere, 2-3 concurrent clients, store faults and crashes; every write statement's ledger predicate is interpreted over bucket-wide tables; invariant at every commit: every changed row belongs to the ledger the committing request addressed. Read half: (a) the simple reads (export, log / transaction listings and look-ups) run through the real resource repository and their answers are checked item for item while ledgers join the bucket; (b) replication pipelines keep the store the real storage driver opened for them while a sibling ledger joins the bucket and is written to - what they hand to the exporter must be their own ledger's logs; (c) every statement the real storage layer sends for a read of any kind (point in time, expansions, filters, volumes, aggregated balances) is audited by the simulated database for its ledger predicates while the bucket is shared",
             "Seeded exploration. Write half: no write on one ledger changes a row of another; each ledger's journal and state stay explained by its own acknowledged writes. Read half: answers of the simple reads and of long-lived pipeline stores contain only the ledger's own rows; every read statement carries a ledger predicate per bucket table while the ledger shares its bucket.",
             TRUSTED + "SCOPE LIMIT: for the reads whose SQL the interpreter cannot execute (window functions, lateral joins, history tables) what is decided is that the statement is scoped to the ledger, lexically (one `ledger = '<name>'` predicate per reference to a table of the bucket), not what PostgreSQL returns for it. KNOWN FINDING: a read in flight while a second ledger joins a bucket whose first ledger was alone (alone-in-bucket shortcut).", "15/C19"),
+    "C21": (SIM + "seeded schedules of 1-2 clients walking a listing - following the next cursors from the first page to the end, then the previous cursors back - while up to two other clients append transactions and save metadata on the same ledger (and a sibling ledger shares the bucket in half of the runs); page sizes 1-4, both orders, default and explicit sort; the pages come from the real API handlers, the real resource repository and the real column / offset paginators (cursor encoding, bottom and reverse logic, hasMore), their ORDER BY / LIMIT / OFFSET / id-bound SQL executed by the interpreter; oracle over the concatenation of the pages vs the committed rows and their commit events",
+            "Seeded exploration: in a forward walk no entity appears twice, the order is strictly the requested one across page boundaries, every page but the last is full and hasMore matches the next cursor, a walk that reaches the end contains every entity committed before its first page was requested and nothing the ledger does not hold; following previous from page i returns exactly page i-1 - also while other clients append.",
+            TRUSTED + "SCOPE LIMIT: transactions and logs by id (column paginator) and accounts by address (offset paginator, over a fixed account set), without filters or point in time. Volumes and grouped volumes (their SQL is outside the interpreter) and filtered / point-in-time listings are NOT decided. Runs of this profile are always real-SQL runs.", "15/C21"),
     "C35": (SIM + "differential simulation: two ledgers of one bucket with independently drawn feature sets (all 48 combinations reachable) receive the same sequential history (creates with explicit back-dated / future-dated timestamps, refused writes, scripts setting account and transaction metadata, reverts, metadata saves and deletes), each from its own client, the two clients interleaved by the seeded scheduler; the real storage write path runs over the SQL interpreter, so the feature gates of CommitTransaction and InsertLog execute. Each history is followed by reads that may need a feature (volumes over a period, aggregated balances, accounts and transactions with pit and expansions, balance filters): they reach the real resource handlers, and the simulated database audits every statement they send against what the ledger's features leave empty (moves, post_commit_effective_volumes)",
             "Seeded exploration. Write side: for every drawn pair of feature sets the transactions, logs, balances and current metadata of the two ledgers must be identical (database-assigned dates and hashes left out); hashes exist only on HASH_LOGS=SYNC ledgers and chain; moves exist only when MOVES_HISTORY=ON. Read side: no read statement touches moves / effective volumes on behalf of a ledger that does not keep them (the storage layer must have refused first), and a refusal is answered 4xx.",
             TRUSTED + "SCOPE LIMIT: the read side decides THAT a read needing a disabled feature is refused, at statement level; it does not evaluate what the reads that are allowed return (their SQL is outside the interpreter). Per-feature triggers (metadata history, effective volumes) are absent or re-implemented, so only what the Go code gates on features is exercised.", "15/C35"),
@@ -91,7 +94,7 @@ NA_PURE = "pure function of its input: no schedule, clock, fault, crash point or
 
 NOT_APPLICABLE = {
     "C02": NA_READ, "C04": NA_PG, "C05": NA_READ, "C10": NA_PG,
-    "C20": NA_READ, "C21": NA_READ, "C34": NA_PG,
+    "C20": NA_READ, "C34": NA_PG,
     "C22": NA_PURE, "C23": NA_PURE, "C24": NA_PURE, "C26": NA_PURE, "C27": NA_PURE, "C28": NA_PURE, "C30": NA_PURE, "C36": NA_PURE, "C37": NA_PURE,
 }
 
